@@ -10,6 +10,7 @@ import (
 	"strconv"
 	"strings"
 	"time"
+	"unicode"
 
 	"github.com/ipld/go-ipld-prime"
 	"github.com/ipld/go-ipld-prime/datamodel"
@@ -669,7 +670,7 @@ func init() {
 	// random selectors on random values, deeper than the exhaustive bounds
 	drivers["selector"] = func(seed int64, n int, emit func(any)) error {
 		rng := rand.New(rand.NewSource(seed))
-		names := [][]int{{97}, {98}, {}, {233, 97}, {97, 45, 49}}
+		names := [][]int{{97}, {98}, {}, {233, 97}, {97, 45, 49}, {97, 32, 98}, {97, 98}, {32, 97}, {97, 9}, {49}}
 		var genVal func(d int) []any
 		genVal = func(d int) []any {
 			k := rng.Intn(11)
@@ -732,7 +733,7 @@ func init() {
 			case 0, 1:
 				nm := names[rng.Intn(len(names))]
 				form := "bracket"
-				if len(nm) > 0 && rng.Intn(2) == 0 {
+				if dotName(nm) && rng.Intn(2) == 0 {
 					form = "dot"
 				}
 				return segRec{T: "field", Name: nm, Opt: opt, Form: form}
@@ -781,7 +782,7 @@ func init() {
 							kn, vn, _ := it.Next()
 							ks, _ := kn.AsString()
 							form := "bracket"
-							if ks != "" && rng.Intn(2) == 0 && !strings.ContainsAny(ks, "-") {
+							if dotName(stringToCps(ks)) && rng.Intn(2) == 0 {
 								form = "dot"
 							}
 							s = segRec{T: "field", Name: stringToCps(ks), Form: form, Opt: rng.Intn(4) == 0}
@@ -814,6 +815,34 @@ func init() {
 					s.Name = []int{}
 				}
 				segs = append(segs, s)
+			}
+			// slices of strings, byte strings and lists whose explicit bounds lie at or beyond the end: every (start, end) around the length
+			if it%6 == 5 {
+				k := (it / 6) % 3
+				n := rng.Intn(5)
+				var items []any
+				for i := 0; i < n; i++ {
+					switch k {
+					case 0:
+						items = append(items, float64([]int{97, 98, 233, 26085, 128274}[rng.Intn(5)]))
+					case 1:
+						items = append(items, float64(rng.Intn(256)))
+					default:
+						items = append(items, []any{"int", float64(i)})
+					}
+				}
+				if items == nil {
+					items = []any{}
+				}
+				val = []any{[]string{"string", "bytes", "list"}[k], items}
+				if node, err = nodeOf(val); err != nil {
+					return err
+				}
+				lo := n - 2 + rng.Intn(5)
+				if lo < 0 {
+					lo = 0
+				}
+				segs = []segRec{{T: "slice", Name: []int{}, Lo: lo, Hi: lo + rng.Intn(4), HasLo: true, HasHi: true, Opt: rng.Intn(4) == 0, Form: "none"}}
 			}
 			zeroPad = []int{0, 0, 0, 1, 2}[rng.Intn(5)]
 			text := selText(segs)
@@ -934,4 +963,17 @@ func resized(n ipld.Node, grow bool) ipld.Node {
 		return n
 	}
 	return n
+}
+
+// dotName: a key that can be written in the dotted form (letters only; every other key is written between quotes).
+func dotName(cps []int) bool {
+	if len(cps) == 0 {
+		return false
+	}
+	for _, c := range cps {
+		if !unicode.IsLetter(rune(c)) {
+			return false
+		}
+	}
+	return true
 }
